@@ -363,6 +363,8 @@ def classify_exc(e):
         return "bad-host-key"
     if isinstance(e, SSHException) and "Bad host key" in str(e):
         return "bad-host-key"
+    if getattr(e, "_pv_policy_raised", False):
+        return "policy-rejected"
     if isinstance(e, PolicyRefused) or (isinstance(e, SSHException) and "not found in known_hosts" in str(e)):
         return "policy-rejected"
     return "other:%s:%s" % (type(e).__name__, str(e)[:80])
@@ -370,6 +372,31 @@ def classify_exc(e):
 
 class PolicyRefused(Exception):
     pass
+
+
+class PolicyAbort(BaseException):
+    """a refusal that is not even an Exception (a policy may raise anything)"""
+
+
+def raising_policies():
+    """name -> exception factory: every way a policy can refuse.  A policy accepts ONLY by returning normally."""
+    import socket
+
+    from paramiko.ssh_exception import SSHException
+
+    return {
+        "raise-SSHException": lambda: SSHException("refused by policy"),
+        "raise-OSError": lambda: OSError(5, "policy: I/O error"),
+        "raise-IOError": lambda: IOError("policy: cannot ask the user"),
+        "raise-FileNotFoundError": lambda: FileNotFoundError(2, "known_hosts directory vanished"),
+        "raise-PermissionError": lambda: PermissionError(13, "known_hosts not writable"),
+        "raise-socket.timeout": lambda: socket.timeout("policy: user did not answer"),
+        "raise-ConnectionError": lambda: ConnectionResetError("policy: lookup service gone"),
+        "raise-ValueError": lambda: ValueError("policy: bad fingerprint"),
+        "raise-KeyError": lambda: KeyError("policy"),
+        "raise-Exception": lambda: Exception("policy says no"),
+        "raise-BaseException": lambda: PolicyAbort("policy abort"),
+    }
 
 
 def run_ssh_client(host, port, entries, policy, host_key, entry="password", system_entries=None, user_via="file",
@@ -451,8 +478,21 @@ def _connect_with_stores(c, paramiko, HostKeys, host, port, entries, policy, hos
                 if not self.ok:
                     raise PolicyRefused("no")
 
-        pol = {"reject": paramiko.RejectPolicy(), "autoadd": paramiko.AutoAddPolicy(),
-               "warning": paramiko.WarningPolicy(), "custom-ok": Custom(True), "custom-no": Custom(False)}[policy]
+        class Raising(paramiko.MissingHostKeyPolicy):
+            def __init__(self, factory):
+                self.factory = factory
+
+            def missing_host_key(self, client, hostname, key):
+                called.append(hostname)
+                e = self.factory()
+                e._pv_policy_raised = True
+                raise e
+
+        if policy.startswith("raise-"):
+            pol = Raising(raising_policies()[policy])
+        else:
+            pol = {"reject": paramiko.RejectPolicy(), "autoadd": paramiko.AutoAddPolicy(),
+                   "warning": paramiko.WarningPolicy(), "custom-ok": Custom(True), "custom-no": Custom(False)}[policy]
         c.set_missing_host_key_policy(pol)
         exc = None
         import warnings
@@ -476,7 +516,9 @@ def _connect_with_stores(c, paramiko, HostKeys, host, port, entries, policy, hos
 
                     kw.update(auth_strategy=Strat(ssh_config=None))
                 c.connect(host, **kw)
-        except Exception as e:  # classified below
+        except BaseException as e:  # classified below (a policy may raise anything)
+            if isinstance(e, (KeyboardInterrupt, SystemExit)):
+                raise
             exc = e
         out = {"outcome": classify_exc(exc), "server_saw": [x[0] for x in srv.log],
                "server_saw_credential": any(x[0] in ("password", "publickey") for x in srv.log),
